@@ -18,6 +18,7 @@ import (
 	"encoding/hex"
 	"fmt"
 	"math"
+	"reflect"
 	"regexp"
 	"strconv"
 	"strings"
@@ -1854,6 +1855,11 @@ func ExecDistinct(query *Query, current []any) ([]any, error) {
 	mapper := make(map[string]bool)
 	slice := make([]any, 0)
 	for _, item := range current {
+		// the fingerprint is the printed form of the row: a row that contains itself (a query may select
+		// the `<-` back-reference into a CTE that is stored in the very document it refers to) has none
+		if containsItself(item, make(map[uintptr]struct{})) {
+			return nil, EXPECTATION_FAILED.Extend("DISTINCT cannot compare a row that contains itself")
+		}
 		sha256 := sha256.New()
 		_, err := sha256.Write([]byte(fmt.Sprintf("%#v", item)))
 		if err != nil {
@@ -1866,6 +1872,41 @@ func ExecDistinct(query *Query, current []any) ([]any, error) {
 		slice = append(slice, item)
 	}
 	return slice, nil
+}
+
+// containsItself tells whether a value reaches itself again through its own members
+func containsItself(value any, path map[uintptr]struct{}) bool {
+	var members []any
+	var self uintptr
+	switch value := value.(type) {
+	case map[string]any:
+		if len(value) == 0 {
+			return false
+		}
+		self = reflect.ValueOf(value).Pointer()
+		for _, member := range value {
+			members = append(members, member)
+		}
+	case []any:
+		if len(value) == 0 {
+			return false
+		}
+		self = reflect.ValueOf(value).Pointer()
+		members = value
+	default:
+		return false
+	}
+	if _, ok := path[self]; ok {
+		return true
+	}
+	path[self] = struct{}{}
+	defer delete(path, self)
+	for _, member := range members {
+		if containsItself(member, path) {
+			return true
+		}
+	}
+	return false
 }
 
 func ExecOrderBy(query *Query, current []any) ([]any, error) {
